@@ -210,7 +210,6 @@ impl<'de, R: ReadSlice<'de>> Deserializer<'de>
 		deserialize_option()
 		deserialize_unit()
 		deserialize_unit_struct(name: &'static str)
-		deserialize_newtype_struct(name: &'static str)
 		deserialize_seq()
 		deserialize_tuple(len: usize)
 		deserialize_tuple_struct(name: &'static str, len: usize)
@@ -218,6 +217,19 @@ impl<'de, R: ReadSlice<'de>> Deserializer<'de>
 		deserialize_struct(name: &'static str, fields: &'static [&'static str])
 		deserialize_identifier()
 		deserialize_ignored_any()
+	}
+
+	fn deserialize_newtype_struct<V>(
+		self,
+		_name: &'static str,
+		visitor: V,
+	) -> Result<V::Value, Self::Error>
+	where
+		V: Visitor<'de>,
+	{
+		// What's in the newtype struct is still to be deserialized by us (e.g. it may be
+		// the enum that we are here for)
+		visitor.visit_newtype_struct(self)
 	}
 
 	#[inline]
